@@ -130,7 +130,12 @@ class DocText:
     """Query text of a node table.  spans[id] = (start_line, start_col, end_line, end_col)
     1-based, end exclusive, of each node's own text (field incl. sub-selection)."""
 
-    def __init__(self, nodes, layout=0, reverse_defs=False):
+    def __init__(self, nodes, layout=0, reverse_defs=False, rename_frags=False):
+        if rename_frags:
+            # the same document with the fragment names permuted (F1 <-> F2): names carry no meaning
+            names = sorted({n["name"] for n in nodes if n["k"] == "FRAG"})
+            perm = dict(zip(names, names[1:] + names[:1]))
+            nodes = [dict(n, name=perm.get(n["name"], n["name"])) if n["k"] in ("FRAG", "S") else n for n in nodes]
         self.nodes = nodes
         self.layout = layout
         self.spans = {}
